@@ -6,7 +6,7 @@ CONSTANTS
   ClassHeads <- CmdHeads
   NestedKeys <- None
   MemberAlpha <- CmdMembers
-  MaxMembers <- M30
+  MaxMembers <- M20
   MaxClasses = 2
   BaseAlpha <- None
   TopAlpha <- None
